@@ -483,12 +483,19 @@ where
 {
     let (tx, rx) = ipc::channel::<T>().map_err(|e| Failure::inconclusive(format!("channel: {}", e)))?;
     let v2 = v.clone();
+    // In the ASan build the receive side is not interposed, so the kernel's end-of-file race
+    // (DESIGN.md 9.4) is not masked there: the sender keeps its handle until the value has arrived.
+    let (release_tx, release_rx) = std::sync::mpsc::channel::<()>();
     let sender = std::thread::spawn(move || {
         let r = tx.send(v2);
+        if cfg!(feature = "asan") {
+            let _ = release_rx.recv();
+        }
         r.map_err(|e| e.to_string())
     });
     let got = sandbox::watched(move || {
         let a = recv_typed(&rx, mode);
+        drop(release_tx);
         let c = rx.recv().map(|_| ());
         (a, c)
     });
